@@ -10,7 +10,7 @@ other test is unconstrained.
 
 import ast
 
-from ..model import (walk, dotted, call_name, kwarg, unparse, short,
+from ..model import (walk, dotted, call_name, kwarg, unparse, short, UNKNOWN,
                      root_name, AnalysisError, calls_in)
 from ..cfg import cfg_of
 from ..flow import guards, const_compare
@@ -338,8 +338,16 @@ class Stager:
     def _intake(self):
         f, g = self.work, self.g
         self.loop = None
+        single = {}
+        for n in walk(f.node):
+            if isinstance(n, ast.Assign) and len(n.targets) == 1 and \
+                    isinstance(n.targets[0], ast.Name):
+                single.setdefault(n.targets[0].id, []).append(n.value)
         for h in for_loops(g):
             it = h.ast.iter
+            if isinstance(it, ast.Name) and len(single.get(it.id, [])) == 1:
+                # sds = task['description'].get('input_staging', [])
+                it = single[it.id][0]
             if any(isinstance(n, ast.Constant) and n.value == self.key
                    for n in walk(it)) and isinstance(h.ast.target, ast.Name):
                 self.loop = h
@@ -651,10 +659,63 @@ def helper_table(prog):
         raise AnalysisError('UNRECOGNISED-IDIOM %s does not read the '
                             'directive\'s action' % f.where)
     helper = prog.cls(HELPER, 'StagingHelper')
+    # dispatch tables: D = {ACTION: self.<op>, ..};  h = D.get(action) / D[..]
+    maps, picks = {}, {}
+    for n in walk(f.node):
+        if isinstance(n, ast.Assign) and len(n.targets) == 1 and \
+                isinstance(n.targets[0], ast.Name) and \
+                isinstance(n.value, ast.Dict) and n.value.keys:
+            m = {}
+            for k, v in zip(n.value.keys, n.value.values):
+                kv = prog.fold(f.module, k, f.cls) if k is not None \
+                    else UNKNOWN
+                d = dotted(v)
+                if kv is UNKNOWN or not (d.startswith('self.') and
+                                         d.count('.') == 1):
+                    m = None
+                    break
+                m[kv] = d[5:]
+            if m:
+                maps[n.targets[0].id] = m
+
+    def pick_of(e):
+        """(map name, may be missing?) if e selects from a dispatch table by
+        the action"""
+        if isinstance(e, ast.Call) and isinstance(e.func, ast.Attribute) and \
+                e.func.attr == 'get' and isinstance(e.func.value, ast.Name) \
+                and e.func.value.id in maps and len(e.args) == 1 and \
+                unparse(e.args[0]) in exprs:
+            return e.func.value.id, True
+        if isinstance(e, ast.Subscript) and isinstance(e.value, ast.Name) and \
+                e.value.id in maps and unparse(e.slice) in exprs:
+            return e.value.id, False
+        return None
+    for n in walk(f.node):
+        if isinstance(n, ast.Assign) and len(n.targets) == 1 and \
+                isinstance(n.targets[0], ast.Name) and pick_of(n.value):
+            picks[n.targets[0].id] = pick_of(n.value)
     table = {}
     for name, value in action_values(prog).items():
-        ev = lambda atom: eval_const_atom(prog, f, atom, exprs, value)
-        par = feasible(g, g.entry.id, pruned_edges(g, ev))
+        def ev(atom, value=value):
+            if isinstance(atom, ast.Name) and atom.id in picks:
+                return value in maps[picks[atom.id][0]]
+            if isinstance(atom, ast.Compare) and len(atom.ops) == 1 and \
+                    isinstance(atom.ops[0], (ast.Is, ast.IsNot)) and \
+                    isinstance(atom.left, ast.Name) and atom.left.id in picks \
+                    and isinstance(atom.comparators[0], ast.Constant) and \
+                    atom.comparators[0].value is None:
+                missing = value not in maps[picks[atom.left.id][0]]
+                return missing == isinstance(atom.ops[0], ast.Is)
+            return eval_const_atom(prog, f, atom, exprs, value)
+        pruned = pruned_edges(g, ev)
+        # an index into the table with an action it does not have raises
+        for n in g.nodes:
+            if n.kind == 'stmt' and n.ast is not None:
+                for x in walk(n.ast):
+                    pk = pick_of(x) if isinstance(x, ast.Subscript) else None
+                    if pk and value not in maps[pk[0]]:
+                        pruned.append((n.id, 'next'))
+        par = feasible(g, g.entry.id, pruned)
         ops = []
         for nid in par:
             for c in I.stmt_calls(g.nodes[nid]):
@@ -663,6 +724,16 @@ def helper_table(prog):
                         not is_neutral(c) and \
                         prog.find_method(helper, d[5:]) is not None:
                     ops.append(d[5:])
+                # a call of the selected handler
+                pk = None
+                if isinstance(c.func, ast.Name) and c.func.id in picks:
+                    pk = picks[c.func.id]
+                elif pick_of(c.func):
+                    pk = pick_of(c.func)
+                if pk is not None and value in maps[pk[0]] and \
+                        prog.find_method(helper, maps[pk[0]][value]) \
+                        is not None:
+                    ops.append(maps[pk[0]][value])
         if g.exit.id not in par:
             table[value] = ('raise', None)
         elif ops:
@@ -1129,22 +1200,28 @@ def r11_5(prog, rep, rid='R11.5'):
         if isinstance(n, ast.Compare) and len(n.ops) == 1 and \
                 isinstance(n.ops[0], ast.NotIn) and \
                 isinstance(n.comparators[0], ast.Name):
-            for a in walk(f.node):
-                if isinstance(a, ast.Assign) and any(
-                        isinstance(t, ast.Name) and
-                        t.id == n.comparators[0].id for t in a.targets):
-                    v = prog.fold(f.module, a.value)
-                    if isinstance(v, list):
-                        valid = (sorted(v), a)
-    if valid is not None:
-        rep.check(valid[0] == keys(other), rid, f,
-                  'every key the dict form admits is carried over %s'
-                  % valid[0], construct='valid keys',
-                  message='dict directives may use keys %s but the expansion '
-                  'carries %s: an admitted key is dropped silently, or a '
-                  'carried key is refused' % (valid[0], keys(other)),
-                  loc=f.loc(valid[1]),
-                  history='a dict directive with a key of the difference')
+            cands = [(a.value, a) for a in walk(f.node)
+                     if isinstance(a, ast.Assign) and any(
+                         isinstance(t, ast.Name) and
+                         t.id == n.comparators[0].id for t in a.targets)]
+            # ... or a module level constant
+            cands.append((n.comparators[0], n))
+            for e, at in cands:
+                v = prog.fold(f.module, e)
+                if isinstance(v, (list, tuple)) and valid is None:
+                    valid = (sorted(v), at)
+    if valid is None:
+        raise AnalysisError('UNRECOGNISED-IDIOM %s: the list of keys which are '
+                            'valid on a dict directive was not found'
+                            % f.where)
+    rep.check(valid[0] == keys(other), rid, f,
+              'every key the dict form admits is carried over %s'
+              % valid[0], construct='valid keys',
+              message='dict directives may use keys %s but the expansion '
+              'carries %s: an admitted key is dropped silently, or a '
+              'carried key is refused' % (valid[0], keys(other)),
+              loc=f.loc(valid[1]),
+              history='a dict directive with a key of the difference')
     # mandatory reads of the stagers are carried by the expansion
     for s in stagers(prog):
         need = set()
@@ -1208,19 +1285,192 @@ def _origin_keys(f, expr, depth=4):
     return out
 
 
+class CtxEval:
+    """abstract run of a handler: which names hold context dicts, and from
+    which constant keys (of the task) each entry is computed.  Understands
+    dict literals, dict(x, k=v) / x.copy(), item stores with constant keys,
+    tuple assignments, and loops over constant tables (unrolled)"""
+
+    def __init__(self, prog, f, cls):
+        self.prog, self.f, self.cls = prog, f, cls
+        self.consts = {}
+        self.orig   = {}
+        self.dicts  = {}
+        self.run(f.node.body)
+
+    def const(self, e):
+        if isinstance(e, ast.Constant):
+            return e.value
+        if isinstance(e, ast.Name) and e.id in self.consts:
+            return self.consts[e.id]
+        v = self.prog.fold(self.f.module, e, self.cls)
+        return None if v is UNKNOWN else v
+
+    def origin(self, e):
+        if e is None or isinstance(e, ast.Constant):
+            return frozenset()
+        if isinstance(e, ast.Name):
+            return self.orig.get(e.id, frozenset())
+        key, base = None, None
+        if isinstance(e, ast.Subscript):
+            key, base = e.slice, e.value
+        elif isinstance(e, ast.Call) and isinstance(e.func, ast.Attribute) \
+                and e.func.attr == 'get' and e.args:
+            key, base = e.args[0], e.func.value
+        if base is not None:
+            k = self.const(key)
+            if isinstance(base, ast.Name) and base.id in self.dicts:
+                d = self.dicts[base.id]
+                if isinstance(k, str):
+                    return d[k][0] if k in d else frozenset()
+                out = set()
+                for v in d.values():
+                    out |= v[0]
+                return frozenset(out)
+            out = set(self.origin(base))
+            if isinstance(k, str):
+                out.add(k)
+            else:
+                out |= self.origin(key)
+            return frozenset(out)
+        out = set()
+        for c in ast.iter_child_nodes(e):
+            if isinstance(c, ast.keyword):
+                out |= self.origin(c.value)
+            elif isinstance(c, ast.expr):
+                out |= self.origin(c)
+        return frozenset(out)
+
+    def as_dict(self, v):
+        if isinstance(v, ast.Dict):
+            d = {}
+            for k, x in zip(v.keys, v.values):
+                kk = self.const(k) if k is not None else None
+                if isinstance(kk, str):
+                    d[kk] = (self.origin(x), x)
+                else:
+                    d['?'] = (frozenset(), v)
+            return d
+        if isinstance(v, ast.Name) and v.id in self.dicts:
+            return self.dicts[v.id]
+        if isinstance(v, ast.Call):
+            src = None
+            fn = dotted(v.func)
+            if fn in ('dict', 'copy.copy', 'copy.deepcopy') and \
+                    len(v.args) <= 1:
+                src = v.args[0] if v.args else ast.Dict(keys=[], values=[])
+            elif isinstance(v.func, ast.Attribute) and \
+                    v.func.attr == 'copy' and not v.args:
+                src = v.func.value
+            if src is not None:
+                base = self.as_dict(src)
+                if base is None:
+                    return None
+                d = dict(base)
+                for kw in v.keywords:
+                    if kw.arg is None:
+                        d['?'] = (frozenset(), v)
+                    else:
+                        d[kw.arg] = (self.origin(kw.value), kw.value)
+                return d
+        return None
+
+    def assign(self, t, v):
+        if isinstance(t, (ast.Tuple, ast.List)) and \
+                isinstance(v, (ast.Tuple, ast.List)) and \
+                len(t.elts) == len(v.elts):
+            # evaluate all right hand sides first
+            vals = [(self.as_dict(x), self.origin(x)) for x in v.elts]
+            for e, (d, o) in zip(t.elts, vals):
+                if isinstance(e, ast.Name):
+                    self.bind(e.id, d, o)
+            return
+        if isinstance(t, ast.Name):
+            self.bind(t.id, self.as_dict(v), self.origin(v))
+        elif isinstance(t, ast.Subscript) and isinstance(t.value, ast.Name) \
+                and t.value.id in self.dicts:
+            k = self.const(t.slice)
+            if isinstance(k, str):
+                self.dicts[t.value.id][k] = (self.origin(v), v)
+            else:
+                self.dicts[t.value.id]['?'] = (frozenset(), v)
+        elif isinstance(t, (ast.Tuple, ast.List)):
+            for e in t.elts:
+                if isinstance(e, ast.Name):
+                    self.bind(e.id, None, self.origin(v))
+
+    def bind(self, name, d, o):
+        self.consts.pop(name, None)
+        if d is not None:
+            self.dicts[name] = d
+            self.orig.pop(name, None)
+        else:
+            self.dicts.pop(name, None)
+            self.orig[name] = o
+
+    def run(self, stmts):
+        for s in stmts:
+            if isinstance(s, ast.Assign):
+                for t in s.targets:
+                    self.assign(t, s.value)
+            elif isinstance(s, ast.AnnAssign) and s.value is not None:
+                self.assign(s.target, s.value)
+            elif isinstance(s, ast.For):
+                rows = self.const(s.iter)
+                if isinstance(rows, (list, tuple)) and rows and \
+                        len(rows) <= 32:
+                    for row in rows:
+                        self.bind_const(s.target, row)
+                        self.run(s.body)
+                else:
+                    self.assign(s.target, s.iter)
+                    self.run(s.body)
+                self.run(s.orelse)
+            elif isinstance(s, (ast.If, ast.While)):
+                self.run(s.body)
+                self.run(s.orelse)
+            elif isinstance(s, ast.With):
+                self.run(s.body)
+            elif isinstance(s, ast.Try):
+                self.run(s.body)
+                for h in s.handlers:
+                    self.run(h.body)
+                self.run(s.orelse)
+                self.run(s.finalbody)
+            elif isinstance(s, ast.Expr) and isinstance(s.value, ast.Call) \
+                    and isinstance(s.value.func, ast.Attribute) and \
+                    s.value.func.attr == 'update' and \
+                    isinstance(s.value.func.value, ast.Name) and \
+                    s.value.func.value.id in self.dicts:
+                d = self.dicts[s.value.func.value.id]
+                c = s.value
+                upd = self.as_dict(c.args[0]) if c.args else {}
+                if upd is None:
+                    d['?'] = (frozenset(), c)
+                else:
+                    d.update(upd)
+                for kw in c.keywords:
+                    if kw.arg:
+                        d[kw.arg] = (self.origin(kw.value), kw.value)
+
+    def bind_const(self, t, value):
+        if isinstance(t, ast.Name):
+            self.bind(t.id, None, frozenset())
+            self.consts[t.id] = value
+        elif isinstance(t, (ast.Tuple, ast.List)) and \
+                isinstance(value, (list, tuple)) and \
+                len(value) == len(t.elts):
+            for e, v in zip(t.elts, value):
+                self.bind_const(e, v)
+
+
 def r11_6(prog, rep, rid='R11.6'):
     rep.rule(rid, 'each stager resolves URLs with src/tgt contexts which carry '
              'every documented schema, fed by the task entry of that name, '
              'and the documented `pwd`', minimum=52)
     for s in stagers(prog):
         f = s.handler
-        # dict literals bound to a name which is used as a context
-        lits = {}
-        for n in walk(f.node):
-            if isinstance(n, ast.Assign) and isinstance(n.value, ast.Dict) \
-                    and len(n.targets) == 1 and \
-                    isinstance(n.targets[0], ast.Name):
-                lits.setdefault(n.targets[0].id, []).append(n.value)
+        ctx_eval = CtxEval(prog, f, s.cls)
         roles = {}
         for c in calls_in(f.node):
             callee = prog.resolve_call(f, c, s.cls)
@@ -1246,20 +1496,15 @@ def r11_6(prog, rep, rid='R11.6'):
                         roles.setdefault(ctx.id, set()).add(role)
         seen = set()
         for name, rs in sorted(roles.items()):
-            if len(rs) != 1 or len(lits.get(name, [])) != 1:
+            table = ctx_eval.dicts.get(name)
+            if len(rs) != 1 or table is None or '?' in table:
                 raise AnalysisError(
-                    'UNRECOGNISED-IDIOM %s: context %r is used for %s and '
-                    'defined %d times' % (f.where, name, sorted(rs),
-                                          len(lits.get(name, []))))
+                    'UNRECOGNISED-IDIOM %s: context %r is used for %s and %s'
+                    % (f.where, name, sorted(rs),
+                       'is not built as a dict the recogniser can follow'
+                       if table is None else 'has computed keys'))
             role = list(rs)[0]
             seen.add(role)
-            lit = lits[name][0]
-            table = {}
-            for k, v in zip(lit.keys, lit.values):
-                if not isinstance(k, ast.Constant):
-                    raise AnalysisError('UNRECOGNISED-IDIOM %s: computed key '
-                                        'in context %r' % (f.where, name))
-                table[k.value] = v
             want = dict(CTX_SOURCE)
             if s.side != 'client':
                 want.pop('client')
@@ -1271,11 +1516,11 @@ def r11_6(prog, rep, rid='R11.6'):
                     rep.bad(rid, f, '%s:%s missing' % (role, k),
                             '%s stager: the %s context has no entry %r: URLs '
                             'with schema %s:// are left unresolved'
-                            % (s.label, role, k, k), f.loc(lit),
+                            % (s.label, role, k, k), f.loc(),
                             history="a directive whose %s is '%s:///x'"
                             % ('source' if role == 'src' else 'target', k))
                     continue
-                got = {"task[%r]" % x for x in _origin_keys(f, table[k])
+                got = {"task[%r]" % x for x in table[k][0]
                        if x in CTX_SOURCE.values()}
                 rep.check(got == {"task[%r]" % src}, rid, f, what,
                           construct='%s:%s' % (role, k),
@@ -1284,7 +1529,7 @@ def r11_6(prog, rep, rid='R11.6'):
                               s.label, k, role, sorted(got) or 'no task entry',
                               src, ' (relative paths resolve against `pwd`)'
                               if k == 'pwd' else ''),
-                          loc=f.loc(table[k]),
+                          loc=f.loc(table[k][1]),
                           history="a directive whose %s is %s" % (
                               'source' if role == 'src' else 'target',
                               "a relative path" if k == 'pwd'
@@ -1513,6 +1758,146 @@ def r11_7(prog, rep, rid='R11.7'):
 
 
 # ------------------------------------------------------------------------------
+# R11.8  a tarball written through a temporary file object is complete on disk
+#        before it is transferred
+#
+def r11_8(prog, rep, rid='R11.8'):
+    rep.rule(rid, 'client input stager: the tarfile object which writes into a '
+             'temporary file object (fileobj=) is closed, and the file object '
+             'then closed or flushed, on every path from the last tar write to '
+             'the staging operation which transfers the file by its name',
+             minimum=2)
+    s = [x for x in stagers(prog) if x.label == 'client-in'][0]
+    f, g = s.handler, s.hg
+    smap = s.hsmap
+    tmp, tar = {}, {}
+    for n in walk(f.node):
+        if isinstance(n, ast.With):
+            for it in n.items:
+                r = prog.resolve(f.module, it.context_expr.func) \
+                    if isinstance(it.context_expr, ast.Call) else None
+                if r and r[0] == 'ext' and (r[1].startswith('tempfile.') or
+                                            r[1] == 'tarfile.open'):
+                    raise AnalysisError(
+                        'UNRECOGNISED-IDIOM %s: `with %s` - %s cannot follow '
+                        'context managers' % (f.where,
+                                              short(it.context_expr, 40), rid))
+        if isinstance(n, ast.Assign) and isinstance(n.value, ast.Call) and \
+                len(n.targets) == 1 and isinstance(n.targets[0], ast.Name):
+            r = prog.resolve(f.module, n.value.func)
+            if r and r[0] == 'ext' and r[1] in ('tempfile.NamedTemporaryFile',
+                                                'tempfile.TemporaryFile'):
+                tmp[n.targets[0].id] = n
+    for n in walk(f.node):
+        if isinstance(n, ast.Assign) and isinstance(n.value, ast.Call) and \
+                len(n.targets) == 1 and isinstance(n.targets[0], ast.Name):
+            r = prog.resolve(f.module, n.value.func)
+            fo = kwarg(n.value, 'fileobj', 2)
+            if r and r[0] == 'ext' and r[1] == 'tarfile.open' and \
+                    isinstance(fo, ast.Name) and fo.id in tmp:
+                tar[n.targets[0].id] = fo.id
+    # does the name of the temporary file reach a directive source?
+    flows = {}
+    for t in tmp:
+        names = set()
+        for _ in range(4):
+            for n in walk(f.node):
+                if isinstance(n, ast.Assign):
+                    reads = any(
+                        (isinstance(x, ast.Attribute) and x.attr == 'name' and
+                         isinstance(x.value, ast.Name) and x.value.id == t) or
+                        (isinstance(x, ast.Name) and x.id in names)
+                        for x in walk(n.value))
+                    if reads:
+                        for tg in n.targets:
+                            if isinstance(tg, ast.Name):
+                                names.add(tg.id)
+        for n in walk(f.node):
+            if isinstance(n, ast.Dict):
+                for k, v in zip(n.keys, n.values):
+                    if isinstance(k, ast.Constant) and k.value == 'source' \
+                            and any(isinstance(x, ast.Name) and x.id in names
+                                    for x in walk(v)):
+                        flows[t] = n
+    pairs = [(ta, tm) for ta, tm in tar.items() if tm in flows]
+    if not pairs:
+        for what in ('closed', 'flushed'):
+            rep.ok(rid, f, 'no tarball is written through a temporary file '
+                   'object whose name is transferred (nothing to be %s)'
+                   % what, f.loc())
+        return
+    rep.saw(f)
+
+    def nodes_calling(name, attrs):
+        out = set()
+        for c in calls_in(f.node):
+            if isinstance(c.func, ast.Attribute) and c.func.attr in attrs and \
+                    isinstance(c.func.value, ast.Name) and \
+                    c.func.value.id == name and smap.get(id(c)) is not None:
+                out.add(smap[id(c)].id)
+        return out
+
+    handling = {n.id for n in g.nodes if s.effect_of(n) and
+                s.effect_of(n)[0] in ('helper', 'op')}
+    if not handling:
+        raise AnalysisError('%s: no staging operation found in %s'
+                            % (rid, f.where))
+    for ta, tm in pairs:
+        writes = nodes_calling(ta, ('add', 'addfile'))
+        closes = nodes_calling(ta, ('close',))
+        syncs  = nodes_calling(tm, ('close', 'flush'))
+        # once the tar object was written to, tests of its name are true
+        pr = [(n.id, 'F') for n in g.nodes if n.kind == 'test' and
+              isinstance(n.ast, ast.Name) and n.ast.id in (ta, tm)]
+        for n in g.nodes:
+            a = n.ast
+            if n.kind == 'test' and isinstance(a, ast.Compare) and \
+                    len(a.ops) == 1 and \
+                    isinstance(a.ops[0], (ast.Is, ast.IsNot)) and \
+                    isinstance(a.left, ast.Name) and a.left.id in (ta, tm) and \
+                    isinstance(a.comparators[0], ast.Constant) and \
+                    a.comparators[0].value is None:
+                pr.append((n.id, 'T' if isinstance(a.ops[0], ast.Is) else 'F'))
+        if not writes:
+            raise AnalysisError('UNRECOGNISED-IDIOM %s: nothing is added to '
+                                'the tarball %r' % (f.where, ta))
+
+        def escapes(starts, via):
+            for a in starts:
+                nxt = [e.dst for e in g.succ[a] if e.label != 'exc']
+                r = g.reachable(nxt, skip_nodes=via, skip_edges=pr)
+                if r & handling:
+                    return True
+            return False
+        rep.check(bool(closes) and not escapes(writes, closes), rid, f,
+                  'the tarfile %r is closed between the last add() and the '
+                  'transfer' % ta, construct='%s.close()' % ta,
+                  message='%s transfers the tarball by the name of the '
+                  'temporary file %r, but on some path from `%s.add(..)` to '
+                  'the staging operation the tarfile object is not closed: '
+                  'the end-of-archive blocks are not written' % (f.qual, tm,
+                                                                 ta),
+                  loc=f.loc(tmp[tm]),
+                  history='a task with TARBALL input directives: the tarball '
+                  'which arrives in the task sandbox is truncated')
+        rep.check(bool(syncs) and not escapes(closes or writes, syncs), rid, f,
+                  'the temporary file %r is closed or flushed after the '
+                  'tarfile was closed and before the transfer' % tm,
+                  construct='%s.close()' % tm,
+                  message='%s writes the tarball through the file object %r '
+                  '(tarfile.open(fileobj=%s)) and transfers the file by '
+                  '%s.name, but on some path from `%s.close()` to the '
+                  'staging operation the file object is neither closed nor '
+                  'flushed: closing the tarfile does not flush the file '
+                  'object, so the tail of the archive is still in its '
+                  'buffer when the file is copied' % (f.qual, tm, tm, tm, ta),
+                  loc=f.loc(tmp[tm]),
+                  history='a task with small TARBALL input directives: the '
+                  'transferred <uid>.tar is empty or truncated and the agent '
+                  'cannot unpack it')
+
+
+# ------------------------------------------------------------------------------
 # sweep (thorough): every call on a StagingHelper anywhere in the package names
 # an operation the facade has (exact: anything else is an AttributeError)
 #
@@ -1605,6 +1990,7 @@ def run(prog, rep, tier):
     r11_6(prog, rep)
     r11_6b(prog, rep)
     r11_7(prog, rep)
+    r11_8(prog, rep)
     if tier == 'thorough':
         r11_4s(prog, rep)
         r11_6b(prog, rep, rid='R11.6s', sweep=True)
@@ -1662,6 +2048,24 @@ MUTATIONS = [
     dict(name='R11.6b default task sandbox built on the cached pilot sandbox', rules=('R11.6b',), edits=[
         ('session.py', "            task_sandbox = ru.Url(self._get_pilot_sandbox(pilot))\n            task_sandbox.path += \"/%s/\" % task['uid']",
                        "            task_sandbox = self._get_pilot_sandbox(pilot)\n            task_sandbox.path += \"/%s/\" % task['uid']")]),
+    dict(name='R11.8 temporary file no longer closed before the transfer', rules=('R11.8',), edits=[
+        (_TI, "            tar_file.close()\n            tmp_file.close()\n", "            tar_file.close()\n")]),
+    dict(name='R11.8 temporary file closed only after the transfer', rules=('R11.8',), edits=[
+        (_TI, "            tar_file.close()\n            tmp_file.close()\n", "            tar_file.close()\n"),
+        (_TI, "            assert tar_path\n", "            tmp_file.close()\n            assert tar_path\n")]),
+    dict(name='R11.8 temporary file flushed before the tarfile is closed', rules=('R11.8',), edits=[
+        (_TI, "            tar_file.close()\n            tmp_file.close()\n", "            tmp_file.flush()\n            tar_file.close()\n")]),
+    dict(name='R11.8 tarfile never closed', rules=('R11.8',), edits=[
+        (_TI, "            tar_file.close()\n            tmp_file.close()\n", "            tmp_file.close()\n")]),
+    dict(name='R11.3 dict dispatch without MOVE', rules=('R11.3',), edits=[
+        (_H, "        if action in [COPY, TRANSFER]:\n            self.copy(src, tgt, flags)\n\n        elif action == LINK:\n            self.link(src, tgt, flags)\n\n        elif action == MOVE:\n            self.move(src, tgt, flags)\n\n        elif action in [DOWNLOAD]:\n            self.download(src, tgt, flags)\n",
+             "        handlers = {COPY    : self.copy,\n                    TRANSFER: self.copy,\n                    LINK    : self.link,\n                    DOWNLOAD: self.download}\n\n        handler = handlers.get(action)\n        if handler:\n            handler(src, tgt, flags)\n")]),
+    dict(name='R11.6 target context derived with dict() but the wrong pwd', rules=('R11.6',), edits=[
+        (_TO, "        tgt_context = {'pwd'      : task['client_sandbox'],     # !\n                       'client'   : task['client_sandbox'],\n                       'task'     : task['task_sandbox'],\n                       'pilot'    : task['pilot_sandbox'],\n                       'session'  : task['session_sandbox'],\n                       'resource' : task['resource_sandbox'],\n                       'endpoint' : task['endpoint_fs']}\n",
+              "        tgt_context = dict(src_context)\n")]),
+    dict(name='R11.2 comprehension intake filters on COPY', rules=('R11.2',), edits=[
+        (_TO, "            actionables = list()\n            for sd in task['description'].get('output_staging', []):\n\n                if sd['action'] == rpc.TRANSFER:\n                    actionables.append(sd)\n",
+              "            out_sds     = task['description'].get('output_staging', [])\n            actionables = [sd for sd in out_sds if sd['action'] == rpc.COPY]\n")]),
     dict(name='R11.2 agent intake filter loses DOWNLOAD', rules=('R11.2',), edits=[
         (_AI, "                if sd['action'] in [rpc.LINK, rpc.COPY, rpc.MOVE,\n                                    rpc.TARBALL, rpc.DOWNLOAD]:",
               "                if sd['action'] in [rpc.LINK, rpc.COPY, rpc.MOVE,\n                                    rpc.TARBALL]:")]),
@@ -1731,6 +2135,19 @@ SILENT = [
     dict(name='getter result re-bound to a copy under the same name', edits=[
         ('session.py', "                resource_sandbox      = self._get_resource_sandbox(pilot)\n                session_sandbox       = ru.Url(resource_sandbox)\n                session_sandbox.path += '/%s' % self.uid",
                        "                session_sandbox       = self._get_resource_sandbox(pilot)\n                session_sandbox       = ru.Url(session_sandbox)\n                session_sandbox.path += '/%s' % self.uid")]),
+    dict(name='temporary file flushed instead of closed', edits=[
+        (_TI, "            tmp_file.close()\n", "            tmp_file.flush()\n")]),
+    dict(name='tarball closed under `is not None`', edits=[
+        (_TI, "        if tar_file:\n            tar_file.close()\n", "        if tar_file is not None:\n            tar_file.close()\n")]),
+    dict(name='corpus C11-r2: helper dispatch through a dict of bound methods', edits=[
+        (_H, "        if action in [COPY, TRANSFER]:\n            self.copy(src, tgt, flags)\n\n        elif action == LINK:\n            self.link(src, tgt, flags)\n\n        elif action == MOVE:\n            self.move(src, tgt, flags)\n\n        elif action in [DOWNLOAD]:\n            self.download(src, tgt, flags)\n",
+             "        handlers = {COPY    : self.copy,\n                    TRANSFER: self.copy,\n                    LINK    : self.link,\n                    MOVE    : self.move,\n                    DOWNLOAD: self.download}\n\n        handler = handlers.get(action)\n        if handler:\n            handler(src, tgt, flags)\n")]),
+    dict(name='corpus C11-r4: target context derived with dict(src_context, pwd=..)', edits=[
+        (_TO, "        tgt_context = {'pwd'      : task['client_sandbox'],     # !\n                       'client'   : task['client_sandbox'],\n                       'task'     : task['task_sandbox'],\n                       'pilot'    : task['pilot_sandbox'],\n                       'session'  : task['session_sandbox'],\n                       'resource' : task['resource_sandbox'],\n                       'endpoint' : task['endpoint_fs']}\n",
+              "        tgt_context = dict(src_context, pwd=task['client_sandbox'])     # !\n")]),
+    dict(name='corpus C11-r4: intake filter as a list comprehension', edits=[
+        (_TO, "            actionables = list()\n            for sd in task['description'].get('output_staging', []):\n\n                if sd['action'] == rpc.TRANSFER:\n                    actionables.append(sd)\n",
+              "            out_sds     = task['description'].get('output_staging', [])\n            actionables = [sd for sd in out_sds if sd['action'] == rpc.TRANSFER]\n")]),
     dict(name='intake filter in early-continue form', edits=[
         (_AO, "                    if sd['action'] in [rpc.LINK, rpc.COPY, rpc.MOVE]:\n                        actionables.append(sd)\n",
               "                    if sd['action'] not in [rpc.LINK, rpc.COPY, rpc.MOVE]:\n                        continue\n                    actionables.append(sd)\n")]),
@@ -1757,4 +2174,55 @@ SILENT = [
     dict(name='SAGA backend refuses what it cannot do', edits=[
         (_H, "    def link(self, src, tgt, flags):\n        assert self._has_saga\n",
              "    def link(self, src, tgt, flags):\n        assert self._has_saga\n        raise NotImplementedError('link')\n")]),
+]
+
+
+# ------------------------------------------------------------------------------
+# behaviour-preserving refactorings of the robustness corpus (seeded/<id>-r<n>),
+# as text edits: silent as they are, killed with a defect on top
+#
+_CORPUS = {
+    'C11-r1': [
+        ('staging_directives.py',
+         '\nfrom .constants import DEFAULT_ACTION, DEFAULT_FLAGS, DEFAULT_PRIORITY\n\n\n# ------------------------------------------------------------------------------\n#\n',
+         "\nfrom .constants import DEFAULT_ACTION, DEFAULT_FLAGS, DEFAULT_PRIORITY\n\n# keys which are valid on a dictionary staging directive\n_VALID_SD_KEYS = ['source', 'target', 'action', 'flags', 'priority', 'uid']\n\n\n# ------------------------------------------------------------------------------\n#\n"),
+        ('staging_directives.py',
+         '\n        if isinstance(sd, str):\n\n            # We detected a string, convert into dict.  The interpretation\n            # differs depending of redirection characters being present in the\n            # string.\n\n            if   \'>>\' in sd: src, tgt = sd.split(\'>>\', 2)\n            elif \'>\'  in sd: src, tgt = sd.split(\'>\' , 2)\n            elif \'<<\' in sd: tgt, src = sd.split(\'<<\', 2)\n            elif \'<\'  in sd: tgt, src = sd.split(\'<\' , 2)\n            else           : src, tgt = sd, os.path.basename(ru.Url(sd).path)\n\n            # FIXME: ns = session ID\n            expanded = {\n                    \'uid\'             : ru.generate_id(\'sd\', ru.ID_SIMPLE),\n                    \'source\'          : src.strip(),\n                    \'target\'          : tgt.strip(),\n                    \'action\'          : DEFAULT_ACTION,\n                    \'flags\'           : DEFAULT_FLAGS,\n                    \'priority\'        : DEFAULT_PRIORITY,\n            }\n\n        elif isinstance(sd, dict):\n\n            # sanity check on dict syntax\n            valid_keys = [\'source\', \'target\', \'action\', \'flags\', \'priority\',\n                          \'uid\']\n\n            for k in sd.keys():\n                if k not in valid_keys:\n                    raise ValueError(\'"%s" is invalid on staging directive\' % k)\n\n            source   = sd.get(\'source\')\n',
+         '\n        if isinstance(sd, str):\n\n            # We detected a string, convert into dict.\n            expanded = _expand_short_form(sd)\n\n        elif isinstance(sd, dict):\n\n            # sanity check on dict syntax\n            for k in sd.keys():\n                if k not in _VALID_SD_KEYS:\n                    raise ValueError(\'"%s" is invalid on staging directive\' % k)\n\n            source   = sd.get(\'source\')\n'),
+        ('staging_directives.py',
+         '    return ret\n\n\n# ------------------------------------------------------------------------------\n#\ndef complete_url(path   : str,\n',
+         '    return ret\n\n\n# ------------------------------------------------------------------------------\n#\ndef _expand_short_form(sd: str) -> Dict[str, Any]:\n    """Convert a string directive into its dictionary equivalent.\n\n    The interpretation differs depending of redirection characters being\n    present in the string.\n    """\n\n    if   \'>>\' in sd: src, tgt = sd.split(\'>>\', 2)\n    elif \'>\'  in sd: src, tgt = sd.split(\'>\' , 2)\n    elif \'<<\' in sd: tgt, src = sd.split(\'<<\', 2)\n    elif \'<\'  in sd: tgt, src = sd.split(\'<\' , 2)\n    else           : src, tgt = sd, os.path.basename(ru.Url(sd).path)\n\n    # FIXME: ns = session ID\n    return {\'uid\'     : ru.generate_id(\'sd\', ru.ID_SIMPLE),\n            \'source\'  : src.strip(),\n            \'target\'  : tgt.strip(),\n            \'action\'  : DEFAULT_ACTION,\n            \'flags\'   : DEFAULT_FLAGS,\n            \'priority\': DEFAULT_PRIORITY}\n\n\n# ------------------------------------------------------------------------------\n#\ndef complete_url(path   : str,\n'),
+    ],
+    'C11-r3': [
+        ('agent/staging_input/default.py',
+         '    AGENT_SCHEDULING_PENDING state, into the agent_scheduling_queue.\n    """\n\n    # --------------------------------------------------------------------------\n    #\n    def __init__(self, cfg, session):\n',
+         '    AGENT_SCHEDULING_PENDING state, into the agent_scheduling_queue.\n    """\n\n    # staging actions which are enacted by this component\n    _ACTIONS = [rpc.LINK, rpc.COPY, rpc.MOVE, rpc.TARBALL, rpc.DOWNLOAD]\n\n    # staging context names and the task entries they are derived from\n    _SANDBOXES = [(\'task\'    , \'task_sandbox\'    ),\n                  (\'pilot\'   , \'pilot_sandbox\'   ),\n                  (\'session\' , \'session_sandbox\' ),\n                  (\'resource\', \'resource_sandbox\'),\n                  (\'endpoint\', \'endpoint_fs\'     )]\n\n\n    # --------------------------------------------------------------------------\n    #\n    def __init__(self, cfg, session):\n'),
+        ('agent/staging_input/default.py',
+         "\n            # check if we have any staging directives to be enacted in this\n            # component\n            actionables = list()\n            for sd in task['description'].get('input_staging', []):\n\n                if sd['action'] in [rpc.LINK, rpc.COPY, rpc.MOVE,\n                                    rpc.TARBALL, rpc.DOWNLOAD]:\n                    actionables.append(sd)\n\n            if actionables:\n                staging_tasks.append([task, actionables])\n",
+         "\n            # check if we have any staging directives to be enacted in this\n            # component\n            actionables = [sd for sd\n                              in task['description'].get('input_staging', [])\n                              if sd['action'] in self._ACTIONS]\n\n            if actionables:\n                staging_tasks.append([task, actionables])\n"),
+        ('agent/staging_input/default.py',
+         "\n    # --------------------------------------------------------------------------\n    #\n    def _handle_task_staging(self, task, actionables):\n\n        uid = task['uid']\n\n        # By definition, this compoentn lives on the pilot's target resource.\n        # As such, we *know* that all staging ops which would refer to the\n",
+         "\n    # --------------------------------------------------------------------------\n    #\n    def _get_contexts(self, task):\n\n        # By definition, this compoentn lives on the pilot's target resource.\n        # As such, we *know* that all staging ops which would refer to the\n"),
+        ('agent/staging_input/default.py',
+         "        #\n        # FIXME: URL creation and manipulation is costly and should be cached\n\n        task_sandbox     = ru.Url(task['task_sandbox'])\n        pilot_sandbox    = ru.Url(task['pilot_sandbox'])\n        session_sandbox  = ru.Url(task['session_sandbox'])\n        resource_sandbox = ru.Url(task['resource_sandbox'])\n        endpoint_fs      = ru.Url(task['endpoint_fs'])\n\n        task_sandbox.schema     = 'file'\n        pilot_sandbox.schema    = 'file'\n        session_sandbox.schema  = 'file'\n        resource_sandbox.schema = 'file'\n        endpoint_fs.schema      = 'file'\n\n        task_sandbox.host       = 'localhost'\n        pilot_sandbox.host      = 'localhost'\n        session_sandbox.host    = 'localhost'\n        resource_sandbox.host   = 'localhost'\n        endpoint_fs.host        = 'localhost'\n\n        src_context = {'pwd'      : str(task_sandbox),       # !!!\n                       'task'     : str(task_sandbox),\n                       'pilot'    : str(pilot_sandbox),\n                       'session'  : str(session_sandbox),\n                       'resource' : str(resource_sandbox),\n                       'endpoint' : str(endpoint_fs)}\n        tgt_context = {'pwd'      : str(task_sandbox),       # !!!\n                       'task'     : str(task_sandbox),\n                       'pilot'    : str(pilot_sandbox),\n                       'session'  : str(session_sandbox),\n                       'resource' : str(resource_sandbox),\n                       'endpoint' : str(endpoint_fs)}\n\n\n        # we can now handle the actionable staging directives\n        for sd in actionables:\n",
+         "        #\n        # FIXME: URL creation and manipulation is costly and should be cached\n\n        context = {'pwd': None}\n        for name, key in self._SANDBOXES:\n            url           = ru.Url(task[key])\n            url.schema    = 'file'\n            url.host      = 'localhost'\n            context[name] = str(url)\n\n        context['pwd'] = context['task']       # !!!\n\n        # source and target are interpreted in the same context\n        return context, dict(context)\n\n\n    # --------------------------------------------------------------------------\n    #\n    def _handle_task_staging(self, task, actionables):\n\n        uid = task['uid']\n\n        src_context, tgt_context = self._get_contexts(task)\n\n        # we can now handle the actionable staging directives\n        for sd in actionables:\n"),
+        ('agent/staging_input/default.py',
+         "            self._prof.prof('staging_in_start', uid=uid, msg=did)\n\n            # agent stager only handles local actions\n            if action not in [rpc.COPY, rpc.LINK, rpc.MOVE, rpc.DOWNLOAD,\n                              rpc.TARBALL]:\n                self._prof.prof('staging_in_skip', uid=uid, msg=did)\n                continue\n\n",
+         "            self._prof.prof('staging_in_start', uid=uid, msg=did)\n\n            # agent stager only handles local actions\n            if action not in self._ACTIONS:\n                self._prof.prof('staging_in_skip', uid=uid, msg=did)\n                continue\n\n"),
+    ],
+}
+
+SILENT += [dict(name='corpus %s' % k, edits=v) for k, v in sorted(_CORPUS.items())]
+
+MUTATIONS += [
+    dict(name='R11.5 corpus C11-r1, extracted short form splits << at <', rules=('R11.5',), edits=_CORPUS['C11-r1'] + [
+        (SD, "    elif '<<' in sd: tgt, src = sd.split('<<', 2)", "    elif '<<' in sd: tgt, src = sd.split('<', 2)")]),
+    dict(name='R11.5 corpus C11-r1, module constant of valid keys loses flags', rules=('R11.5',), edits=_CORPUS['C11-r1'] + [
+        (SD, "_VALID_SD_KEYS = ['source', 'target', 'action', 'flags', 'priority', 'uid']", "_VALID_SD_KEYS = ['source', 'target', 'action', 'priority', 'uid']")]),
+    dict(name='R11.6 corpus C11-r3, sandbox table feeds pilot from the session sandbox', rules=('R11.6',), edits=_CORPUS['C11-r3'] + [
+        (_AI, "                  ('pilot'   , 'pilot_sandbox'   ),", "                  ('pilot'   , 'session_sandbox' ),")]),
+    dict(name='R11.6 corpus C11-r3, pwd taken from the pilot entry', rules=('R11.6',), edits=_CORPUS['C11-r3'] + [
+        (_AI, "        context['pwd'] = context['task']       # !!!", "        context['pwd'] = context['pilot']      # !!!")]),
+    dict(name='R11.2 corpus C11-r3, class table of actions loses DOWNLOAD', rules=('R11.2',), edits=_CORPUS['C11-r3'] + [
+        (_AI, "    _ACTIONS = [rpc.LINK, rpc.COPY, rpc.MOVE, rpc.TARBALL, rpc.DOWNLOAD]", "    _ACTIONS = [rpc.LINK, rpc.COPY, rpc.MOVE, rpc.TARBALL]")]),
 ]
